@@ -17,7 +17,8 @@ m = {
  "engines": [
   {"name": "lean-model", "path": "/verif/lean", "serves_properties": [c["property_id"] for c in CHECKS], "kind_free_text": "Lean 4 executable model of the crate (TinysetModel/Model), kernel-checked theorems about it (Proofs, Properties), generated constants and Fits64 terms (Generated), compiled trace validator (Driver.lean -> tsmodel)"},
   {"name": "harness", "path": "/verif/harness", "serves_properties": [c["property_id"] for c in CHECKS], "kind_free_text": "Rust harness driving the real crate in-process (scripted RNG, representation view, ledger allocator with guard bytes / minimal alignment / failure injection), ideal-set oracles, trace writer for the Lean driver"},
-  {"name": "translator", "path": "/verif/tools/gen_consts.py", "serves_properties": ["C03", "C06", "C07", "C10", "C17", "C20"], "kind_free_text": "regenerates BITSPLITS, tag masks, RNG constants, thresholds and the Fits64 bodies (as BitVec terms) from /repo/src on every run"}
+  {"name": "translator", "path": "/verif/tools/gen_consts.py", "serves_properties": [c["property_id"] for c in CHECKS], "kind_free_text": "runs first in every check: regenerates BITSPLITS, tag masks, layout constants, growth/conversion thresholds, RNG constants and the Fits64 bodies (as BitVec terms) from /repo/src; Proofs/Consts.lean proves the model uses exactly those; refuses source shapes it does not know (reported as a broken tie)"},
+  {"name": "shared-reference-audit", "path": "/verif/tools/audit_shared.py", "serves_properties": ["C18"], "kind_free_text": "side condition of the model read off /repo/src on every run: no function taking a set by shared reference stores through a raw pointer other than a freshly allocated block, forms &mut from it or casts it to *mut; no *mut in iterator/wrapper files; no interior mutability"}
  ],
  "checks": [],
  "notes": NOTES,
